@@ -22,6 +22,33 @@ _real_waitpid = os.waitpid
 _real_kill = os.kill
 
 
+class DaemonKilled(BaseException):
+    """A signal whose disposition is the default one was delivered to the daemon: the process is gone."""
+
+    def __init__(self, signum):
+        BaseException.__init__(self, 'daemon killed by signal %d' % signum)
+        self.signum = signum
+
+
+# the daemon's signal dispositions (signal.signal / signal.getsignal as circus.sighandler sees them)
+DISPOSITIONS = {}
+
+
+def _reset_dispositions():
+    DISPOSITIONS.clear()
+    DISPOSITIONS[int(_signal.SIGINT)] = _signal.default_int_handler
+
+
+def _set_disposition(signum, handler):
+    old = DISPOSITIONS.get(int(signum), _signal.SIG_DFL)
+    DISPOSITIONS[int(signum)] = handler
+    return old
+
+
+def _get_disposition(signum):
+    return DISPOSITIONS.get(int(signum), _signal.SIG_DFL)
+
+
 class Abort(Exception):
     """The execution cannot continue (loop blocked, horizon exceeded...)."""
 
@@ -111,7 +138,7 @@ def install():
     circus.arbiter.socket = fakezmq.ModuleProxy(_socket, getfqdn=lambda *a: 'simhost')
     circus.arbiter._setproctitle = lambda title: None
     circus.sighandler.signal = fakezmq.ModuleProxy(
-        _signal, signal=lambda *a: None, getsignal=lambda *a: _signal.SIG_DFL,
+        _signal, signal=_set_disposition, getsignal=_get_disposition,
         siginterrupt=lambda *a: None)
     circus.watcher.randint = _randint
     circus.controller.os = fakezmq.ModuleProxy(os, chown=lambda *a, **k: None)
@@ -274,6 +301,7 @@ class World(object):
         import circus.util
         circus.util._PROCS.clear()
         _restore_module_state()
+        _reset_dispositions()
 
     # ------------------------------------------------------------------
     def _behaviour_for(self, kernel, proc):
@@ -370,7 +398,12 @@ class World(object):
 
     def signal_daemon(self, signum):
         self.trace.append((CLOCK.now, 'daemon-signal', int(signum)))
-        self.ctrl.sys_hdl.signal(signum)
+        h = _get_disposition(signum)
+        if h is _signal.SIG_IGN:
+            return
+        if h is _signal.SIG_DFL:
+            raise DaemonKilled(int(signum))
+        h(int(signum), None)        # the handler circus registered - or Python's own for SIGINT (KeyboardInterrupt)
 
     # --- external events ---------------------------------------------------
     def die(self, pid, wstatus):
